@@ -17,6 +17,8 @@
 
 use std::collections::BTreeMap;
 use std::num::NonZeroUsize;
+use std::sync::atomic::AtomicBool;
+use std::sync::atomic::Ordering;
 use std::sync::Arc;
 use std::sync::Mutex;
 use std::thread;
@@ -112,6 +114,8 @@ struct ParFrameBuf {
     buffers: Vec<Mutex<NumberedFrameBuf>>,
     encode_queue: (Sender<Option<usize>>, Receiver<Option<usize>>),
     refill_queue: (Sender<usize>, Receiver<usize>),
+    /// Set by a worker that failed to encode a frame; tells the feeder to stop.
+    failed: AtomicBool,
 }
 
 impl ParFrameBuf {
@@ -134,6 +138,7 @@ impl ParFrameBuf {
             buffers,
             encode_queue: crossbeam_channel::bounded(replicas + 1),
             refill_queue: (refill_sender, refill_receiver),
+            failed: AtomicBool::new(false),
         })
     }
 
@@ -321,6 +326,7 @@ fn feed_fixed_block_size<T: Source, C: Fill>(
     let mut src = src;
     let mut frame_count = 0usize;
     let mut worker_starvation_count = 0usize;
+    let mut read_error = None;
 
     'feed: loop {
         let bufid = parbuf.recv_refill_request();
@@ -331,8 +337,14 @@ fn feed_fixed_block_size<T: Source, C: Fill>(
                 .lock()
                 .expect(panic_msg::MUTEX_LOCK_FAILED);
             let mut framebuf_and_ctx = (&mut numbuf.framebuf, &mut context);
-            let read_samples = src.read_samples(block_size, &mut framebuf_and_ctx)?;
-            if read_samples == 0 {
+            let read_samples = match src.read_samples(block_size, &mut framebuf_and_ctx) {
+                Ok(n) => n,
+                Err(e) => {
+                    read_error = Some(e);
+                    break 'feed;
+                }
+            };
+            if read_samples == 0 || parbuf.failed.load(Ordering::SeqCst) {
                 break 'feed;
             }
             numbuf.frame_number = Some(frame_count);
@@ -342,7 +354,11 @@ fn feed_fixed_block_size<T: Source, C: Fill>(
             worker_starvation_count += 1;
         }
     }
+    // workers must be stopped on the error path, too.
     parbuf.request_stop(workers);
+    if let Some(e) = read_error {
+        return Err(e);
+    }
     Ok((
         FeedStats {
             frame_count,
@@ -403,11 +419,13 @@ pub fn encode_with_fixed_block_size<T: Source>(
         block_size,
     )?);
     let parsink: Arc<ParSink<Frame>> = Arc::new(ParSink::new());
+    let parerrors: Arc<ParSink<VerifyError>> = Arc::new(ParSink::new());
 
     let join_handles: Vec<_> = (0..worker_count)
         .map(|_n| {
             let parbuf = Arc::clone(&parbuf);
             let parsink = Arc::clone(&parsink);
+            let parerrors = Arc::clone(&parerrors);
             let stream_info = stream.stream_info().clone();
             let config = Arc::clone(&config);
             thread::spawn(move || {
@@ -427,7 +445,16 @@ pub fn encode_with_fixed_block_size<T: Source>(
                     };
                     encode_result.map_or_else(
                         |e| {
-                            unreachable!("{}, err={:?}", panic_msg::ERROR_NOT_EXPECTED, e);
+                            // e.g. a sample out of range. The buffer goes back to the
+                            // feeder so that it never waits for a dead worker.
+                            parbuf.failed.store(true, Ordering::SeqCst);
+                            parbuf.enqueue_refill(bufid);
+                            // (`SourceError` is not `Send`, and cannot happen here.)
+                            let e = match e {
+                                EncodeError::Config(e) => e,
+                                EncodeError::Source(e) => VerifyError::new("input", &e.to_string()),
+                            };
+                            parerrors.push(frame_number, e);
                         },
                         |mut frame| {
                             parbuf.enqueue_refill(bufid);
@@ -445,11 +472,30 @@ pub fn encode_with_fixed_block_size<T: Source>(
         crate::verif_hook::spawned(h.thread().id(), crate::verif_hook::Role::Worker);
     }
     let src_len_hint = src.len_hint();
-    let context = ParContext::new(Context::new(src.bits_per_sample(), src.channels()));
-    let (feed_stats, context) =
-        feed_fixed_block_size(src, block_size, worker_count, &parbuf, context)?;
+    let mut context = ParContext::new(Context::new(src.bits_per_sample(), src.channels()));
+    let feed_result =
+        feed_fixed_block_size(src, block_size, worker_count, &parbuf, &mut context)
+            .map(|(stats, _)| stats);
     let remaining_md5_blocks = context.request_stop();
     let context = context.finalize();
+
+    // All threads are stopped and joined before any error is returned.
+    for h in join_handles {
+        #[cfg(flacenc_verif)]
+        crate::verif_hook::before(crate::verif_hook::Op::Join, crate::verif_hook::Obj::Thread(h.thread().id()), &|| h.is_finished());
+        h.join().expect(panic_msg::THREAD_JOIN_FAILED);
+    }
+
+    // An encode error of frame `n` precedes a read error of a later block, as
+    // in single-thread mode; `ParSink` yields the lowest frame number first.
+    let mut first_encode_error = None;
+    destruct_arc(parerrors).finalize(|e: VerifyError| {
+        first_encode_error.get_or_insert(e);
+    });
+    if let Some(e) = first_encode_error {
+        return Err(e.into());
+    }
+    let feed_stats = feed_result?;
 
     info!(
         target: "flacenc::par_run_stat::jsonl",
@@ -463,12 +509,6 @@ pub fn encode_with_fixed_block_size<T: Source>(
     stream
         .stream_info_mut()
         .set_md5_digest(&context.md5_digest());
-
-    for h in join_handles {
-        #[cfg(flacenc_verif)]
-        crate::verif_hook::before(crate::verif_hook::Op::Join, crate::verif_hook::Obj::Thread(h.thread().id()), &|| h.is_finished());
-        h.join().expect(panic_msg::THREAD_JOIN_FAILED);
-    }
 
     destruct_arc(parsink).finalize(|f: Frame| stream.add_frame(f));
 
